@@ -239,6 +239,14 @@ func suiteDedup(e *vh.Env) {
 				}
 				seen[x] = true
 			}
+			// now and then the list call itself fails first (the proxy is briefly unavailable) and the agent asks again
+			if rng.Chance(12) {
+				for len(fp.listFail) < len(fp.lists) {
+					fp.listFail = append(fp.listFail, false)
+				}
+				fp.listFail = append(fp.listFail, true)
+				fp.lists = append(fp.lists, nil) // the failed call delivers nothing
+			}
 			fp.lists = append(fp.lists, ids)
 		}
 		for x := range seen {
@@ -275,7 +283,10 @@ func suiteDedup(e *vh.Env) {
 		<-done
 		// ops: one line per list reply; final line: fetched IDs (sorted) with first-attempt count
 		e.Op("new "+fmt.Sprint(requestCacheLimit), "ok")
-		for _, ids := range fp.lists {
+		for k, ids := range fp.lists {
+			if k < len(fp.listFail) && fp.listFail[k] {
+				continue // a failed list call: nothing was reported
+			}
 			if len(ids) == 0 {
 				e.Op("list", "ok")
 			} else {
